@@ -247,7 +247,9 @@ def rebin(img, factor):
 
     if img.ndim == 3:
         rebinned_shape = (img.shape[0], img.shape[1]//factor, img.shape[2]//factor)
-        img_rebinned = np.zeros(rebinned_shape, dtype=img.dtype)
+        # accumulate in the type numpy sums this dtype in (as the 2-D branch
+        # does), so that narrow integer and boolean cubes do not wrap around
+        img_rebinned = np.zeros(rebinned_shape, dtype=np.sum(img[:0]).dtype)
         for i in range(img.shape[0]):
             img_rebinned[i] = img[i].reshape(rebinned_shape[1], factor,
                                              rebinned_shape[2], factor).sum(-1).sum(1)
